@@ -424,6 +424,30 @@ class Check(object):
         return True
 
     # -------- correspondence step
+    _built_preambles = set()
+
+    def _build_imports(self, preamble):
+        """Full .vo build of every SV module a case preamble imports (and of what they depend
+        on): a module used only by case shards is not a dependency of Props.v, so the proof
+        step alone does not keep it up to date."""
+        if preamble in Check._built_preambles:
+            return
+        mods = []
+        for m in re.finditer(r"From\s+SV\s+Require\s+(?:Import|Export)\s+(.*?)\.(?=\s|$)", preamble, re.S):
+            mods += m.group(1).split()
+        for m in re.finditer(r"(?<!SV\s)Require\s+(?:Import|Export)\s+(.*?)\.(?=\s|$)", preamble, re.S):
+            mods += [x[3:] for x in m.group(1).split() if x.startswith("SV.")]
+        targets = []
+        for mod in mods:
+            rel = mod.replace(".", "/") + ".v"
+            if os.path.exists(os.path.join(COQ, rel)) and rel not in targets:
+                targets.append(rel)
+        if targets:
+            rc, out = build(targets, timeout=1500)
+            if rc != 0:
+                raise RuntimeError("could not build the modules the case files import: %s" % out[-2000:])
+        Check._built_preambles.add(preamble)
+
     def run_cases(self, name, preamble, case_type, cases, preds, shard=400,
                   timeout=900, keep=False):
         """cases: list of Coq terms of type `case_type`; preds: list of Coq
@@ -432,6 +456,7 @@ class Check(object):
         Coq rejects a shard (a harness bug or a broken model)."""
         cdir = os.path.join(COQ, "Cases")
         os.makedirs(cdir, exist_ok=True)
+        self._build_imports(preamble)
         files = []
         for k in range(0, len(cases), shard):
             chunk = cases[k:k + shard]
